@@ -282,7 +282,11 @@ fn main() {
   let mut iter = 0u64;
   while args.time_left() && iter < max_iter {
     iter += 1;
-    let case = gen_case(&mut rng, &focus);
+    // every shard starts with one slow-sink shutdown case (a few seconds), then the general mix
+    let case = if iter == 1 && focus == "all" && args.shard % 2 == 0 { gen_case(&mut rng, "slow-sink") } else { gen_case(&mut rng, &focus) };
+    if case.slow_sink.is_some() {
+      res.count("evaluations/slow_sink_shutdown", 1);
+    }
     let dir = base_tmp.join(format!("case-{}", iter));
     std::fs::create_dir_all(&dir).expect("case dir");
     let yaml = yaml_of(&case, &dir);
@@ -301,6 +305,9 @@ fn main() {
       (proc::Ending::Exited(0), Some(r)) if r.get("init_error").is_some() || r.get("init_panic").is_some() => {
         // every generated configuration is valid: a refusal is a harness/generator problem
         res.inconclusive(&format!("child could not initialise logging: {}", r));
+      }
+      (proc::Ending::Exited(0), Some(r)) if case.slow_sink.is_some() && r["slow_sink_read_to_eof"].as_bool() != Some(true) => {
+        res.inconclusive("slow-sink case: the FIFO reader did not reach end-of-file (writer still open or too slow): no verdict");
       }
       (proc::Ending::Exited(0), Some(r)) => {
         let (f, st) = check_case(&case, &dir, r, &mut res);
